@@ -13,6 +13,8 @@ decrypts, which address-derived value enters the cipher, what the ROM must find 
 """
 import json
 import os
+import threading
+import time
 
 import c13_hw as hw
 from lib import tlc
@@ -178,7 +180,7 @@ def concretise(eng, g, idx, r, tier, sampled=False):
                 variants = [variants[(idx + tail + sub) % 2]]
             for var in variants:
                 cc = {"eng": eng, "C": C, "unit": unit, "base": g["base"], "sub": sub, "len": g["lc"] * C + tail,
-                      "rule": "all" if thorough else "edges", "origin": r.choice(ORIGINS),
+                      "rule": "all" if (thorough and idx % 2 == 0) else "edges", "origin": r.choice(ORIGINS),
                       "var": var, "api": "low", "kb": sampled or idx % 4 == 0 or thorough}
                 regs = [dict(x) for x in sorted(g["regs"], key=lambda x: x["lo"])]
                 for x in regs:
@@ -750,22 +752,44 @@ def canary(v):
     good = execute(cc)
     bad = json.loads(json.dumps(good))
     for t in good:
-        t["id"] = "good/" + t["kind"]
+        t["id"] = "good/" + t["id"].split("/", 1)[1]
     for t in bad:
-        t["id"] = "bad/" + t["kind"]
+        t["id"] = "bad/" + t["id"].split("/", 1)[1]
         if t["kind"] == "img":
             t["ev"][2]["ok"] = False          # one cell whose engine output is not the plaintext
         elif t["kind"] == "loc":
-            t["ev"][1]["ok"] = False          # one cut where whole != pieces
+            t["ev"][0]["ok"] = False          # one cut where whole != pieces
         else:
             t["ev"][0]["hi"][1] ^= 0x400      # a key blob whose range is one unit off
     more = json.loads(json.dumps([t for t in good if t["kind"] == "img"]))[0]
     more["id"] = "bad/ctx"
     more["ev"][1]["inp"][1] += 16             # right bytes, but the logged cipher input is not the cell's address
     rej, _ = tlc.tv("C13", "FlashEncTrace", good + bad + [more])
-    if set(rej) != {"bad/img", "bad/loc", "bad/kb", "bad/ctx"}:
-        raise Machinery(f"canary failed: rejected {sorted(rej)}; expected exactly the four corrupted traces")
-    v.extra["canary"] = "3 traces of a real run accepted; the same with one ok flag cleared / one range limb / one cipher input changed rejected (4)"
+    want = {t["id"] for t in bad} | {"bad/ctx"}
+    if set(rej) != want or len(want) != 5:
+        raise Machinery(f"canary failed: rejected {sorted(rej)}; expected exactly the corrupted traces {sorted(want)}")
+    v.extra["canary"] = f"{len(good)} traces of a real run accepted; the same with one ok flag cleared / one range limb / one cipher input changed rejected ({len(want)})"
+
+
+class Background(threading.Thread):
+    """TLC runs that do not depend on the executions (MC, predictions) overlap with them."""
+
+    def __init__(self, fn):
+        super().__init__(daemon=True)
+        self.fn, self.res, self.exc = fn, None, None
+        self.start()
+
+    def run(self):
+        try:
+            self.res = self.fn()
+        except BaseException as e:  # noqa: BLE001 - re-raised in the main thread
+            self.exc = e
+
+    def result(self):
+        self.join()
+        if self.exc:
+            raise self.exc
+        return self.res
 
 
 def run(tier):
@@ -782,26 +806,28 @@ def run(tier):
     v.extra["anchors"] = f"{n_anch} golden artefacts (NXP image_enc outputs, key blobs, BEE headers) reproduced by the engine model"
     for f in set(OTFAD_FAMILIES + IEE_FAMILIES):
         get_db(f, "latest")
+    scratch()  # created in the main thread
+
+    # ---- MC: lemmas, non-vacuity, I-spec agreement; predictions (in the background: independent of the executions)
+    def model_checking():
+        acts = ("DoLoadBlob", "DoLoadFiller", "DoEndLoad", "DoFetchDecrypt", "DoFetchBypass", "DoFetchMiss", "DoEndFetch", "DoLocal", "DoEndLocal")
+        mc = tlc.mc("C13", "FlashEncMC", "FlashEncMC_quick.cfg" if quick else "FlashEncMC.cfg", require_actions=acts, heap="6g", timeout=1500, workers=4 if quick else 8)
+        pred = {}
+        for name, cfg, inv in (("otfad/base-unaligned/straddle", "FlashEncPredictOtfad.cfg", "WalkAnyBase"), ("iee/inclusive-end/last-page", "FlashEncPredictIee.cfg", "WalkIeeInclusiveEnd")):
+            p = tlc.run("C13", "FlashEncMC", cfg, workers=1, timeout=300)
+            if p.violated != inv:
+                raise Machinery(f"prediction run {cfg}: expected {inv} to be violated, got {p.violated}")
+            pred[name] = f"{inv} violated after {p.generated} states"
+        return mc, pred
+
+    bg = Background(model_checking)
+    time.sleep(0.5)  # lib.tlc numbers its scratch directories with a plain counter: never start two runs in the same instant
     canary(v)
     say(f"[C13] anchors + canary ok {v.timer.s()}s")
-
-    # ---- MC: lemmas, non-vacuity, I-spec agreement; predictions
-    acts = ("DoLoadBlob", "DoLoadFiller", "DoEndLoad", "DoFetchDecrypt", "DoFetchBypass", "DoFetchMiss", "DoEndFetch", "DoLocal", "DoEndLocal")
-    mc = tlc.mc("C13", "FlashEncMC", "FlashEncMC_quick.cfg" if quick else "FlashEncMC.cfg", require_actions=acts, heap="6g", timeout=1200)
-    v.add_mc(mc)
-    pred = {}
-    for name, cfg, inv in (("otfad/base-unaligned/straddle", "FlashEncPredictOtfad.cfg", "WalkAnyBase"), ("iee/inclusive-end/last-page", "FlashEncPredictIee.cfg", "WalkIeeInclusiveEnd")):
-        p = tlc.run("C13", "FlashEncMC", cfg, workers=1, timeout=300)
-        if p.violated != inv:
-            raise Machinery(f"prediction run {cfg}: expected {inv} to be violated, got {p.violated}")
-        pred[name] = f"{inv} violated after {p.generated} states"
-    v.extra["ispec_predictions"] = pred
-    say(f"[C13] MC done {v.timer.s()}s (MC alone {mc.wall:.1f}s): {mc.distinct} states; predicted by the I-spec: {sorted(pred)}")
 
     # ---- GEN
     g = tlc.run("C13", "FlashEncGen", "FlashEncGen.cfg", workers=1, heap="6g", timeout=900)
     structs = g.json_prints()
-    v.add_mc(g)
     if len(structs) != g.distinct or len(structs) < 1000:
         raise Machinery(f"GEN emitted {len(structs)} cases for {g.distinct} states")
     cases = []
@@ -812,7 +838,7 @@ def run(tier):
             cases += concretise(eng, s, idx, r, tier)
     n_gen = len(cases)
     # ---- sampled lane: up to 4 regions, wider windows, every tail / sub offset / origin
-    for i in range(300 if quick else 6000):
+    for i in range(300 if quick else 3000):
         s = random_struct(r, r.choice([16, 24, 32]), 4)
         for eng in ("otfad", "bee", "iee"):
             cases += concretise(eng, s, r.randrange(1000), r, tier, sampled=True)
@@ -826,19 +852,28 @@ def run(tier):
         tamper.append(t)
     say(f"[C13] GEN done {v.timer.s()}s: {len(structs)} structural cases -> {n_gen} concrete + {len(cases) - n_gen} sampled + {len(tamper)} tamper")
 
-    results = pmap(execute, cases + tamper, chunksize=16)
-    say(f"[C13] executed {v.timer.s()}s")
     by_id = {cc["id"]: cc for cc in cases + tamper}
-    traces = [t for res in results[:len(cases)] for t in res]
-    ttraces = [t for res in results[len(cases):] for t in res]
-    v.count(len(cases))
-    for cc in cases:
-        v.nontrivial(json.dumps([cc["eng"], cc["var"], cc["api"], cc["base"], cc["sub"], cc["len"], [(x["lo"], x["hi"], x["fl"], x["style"]) for x in cc["regs"]]]))
-    for t in (traces[0], traces[len(traces) // 2], traces[-1]):
-        v.sample({"id": t["id"], "kind": t["kind"], "case": t["case"], "ev": t["ev"][:6]})
-
-    validate(v, by_id, traces)
-    say(f"[C13] TV done {v.timer.s()}s: {len(traces)} traces")
+    n_traces, block = 0, 25000
+    for k in range(0, len(cases), block):  # in blocks: a thorough run holds some 10^5 traces
+        part = cases[k:k + block]
+        traces = [t for res in pmap(execute, part, chunksize=16) for t in res]
+        if k == 0:
+            for t in (traces[0], traces[len(traces) // 3], traces[len(traces) // 2], traces[-1]):
+                v.sample({"id": t["id"], "kind": t["kind"], "case": t["case"], "ev": t["ev"][:6]})
+        ran = {t["id"].split("/")[0] for t in traces if t["ev"] and t["ev"][0]["e"] not in ("Refused", "Crash")}
+        for cc in part:
+            if cc["len"] > 0 and cc["id"] in ran:  # non-trivial: SPSDK produced an image and the engine model read at least one cell of it
+                v.nontrivial(json.dumps([cc["eng"], cc["var"], cc["api"], cc["base"], cc["sub"], cc["len"], [(x["lo"], x["hi"], x["fl"], x["style"]) for x in cc["regs"]]]))
+        v.count(len(part))
+        validate(v, by_id, traces)
+        n_traces += len(traces)
+        say(f"[C13] executed + validated {min(k + block, len(cases))}/{len(cases)} cases, {n_traces} traces {v.timer.s()}s")
+    ttraces = [t for res in pmap(execute, tamper, chunksize=16) for t in res]
+    mc, pred = bg.result()
+    v.add_mc(mc)
+    v.add_mc(g)
+    v.extra["ispec_predictions"] = pred
+    say(f"[C13] MC done {v.timer.s()}s (MC alone {mc.wall:.1f}s): {mc.distinct} states; predicted by the I-spec: {sorted(pred)}")
     rej = validate(v, by_id, ttraces, expect_reject=True)
     acc = [t["id"] for t in ttraces if t["id"] not in rej]
     if acc:
@@ -850,7 +885,7 @@ def run(tier):
         f"12 cells; every base cell; every length in cells) x engine (OTFAD, BEE, IEE) x byte tail {{0,1,15,16,17}} x sub-cell base offset x mode "
         "(OTFAD plain / byte-swapped, BEE one / two engines, IEE XTS-256/512, CTR-128/256 with address, bypass) x end-address convention x API level "
         f"({'one tail / offset / mode per structural case in rotation' if quick else 'all tails and offsets'}) + seeded samples with up to 4 regions in wider windows; "
-        "distinct by (engine, mode, API, base, offset, length, regions)")
+        "a case is non-trivial if the image is not empty, SPSDK exported something and the engine model read at least one cell of it; distinct by (engine, mode, API, base, offset, length, regions)")
     v.cov["exhaustive"] = not quick  # quick: flag variants and three-region placements 1 in 3, one tail / offset per structural case
     v.cov["checker_cmd"] = "TLC FlashEncMC (lemmas + I-spec) ; TLC FlashEncGen (case space) ; TLC FlashEncTrace (decides every trace)"
     v.cov["trusted_base"] = ["AES block function of `cryptography` (ECB, one block at a time)", "c13_hw.py: CTR counter blocks, XTS tweak chain, RFC 3394 unwrap, CBC, CRC-32/MPEG-2 in pure Python",
